@@ -4251,6 +4251,10 @@ class Wallet(object):
                 output_arr.append((o['address'], int(o['value'])))
             rt = self.transaction_create(output_arr, input_arr, fee=t['fee'], network=t['network'],
                                          random_output_order=False)
+            # Signatures commit to the sequence numbers of the exported transaction
+            for n, i in enumerate(t['inputs']):
+                if 'sequence' in i and n < len(rt.inputs):
+                    rt.inputs[n].sequence = i['sequence']
             rt.block_height = t['block_height']
             rt.confirmations = t['confirmations']
             rt.witness_type = t['witness_type']
